@@ -36,7 +36,7 @@ def gen(rng, tier):
     centers = np.round(rng.uniform(-1, 1, (Sn, 2)), 2)
     order = list(range(len(part)))
     rng.shuffle(order)
-    return {'kind': 'evconvex', 'S': Sn, 'n': n, 'partition': part, 'order': order,
+    spec = {'kind': 'evconvex', 'S': Sn, 'n': n, 'partition': part, 'order': order,
             'labels': labels, 'p': p.tolist(),
             'lo': (centers - np.round(rng.uniform(0.1, 0.8, (Sn, 2)), 2)).tolist(),
             'hi': (centers + np.round(rng.uniform(0.1, 0.8, (Sn, 2)), 2)).tolist(),
@@ -47,6 +47,13 @@ def gen(rng, tier):
             'atom': ATOMS[int(rng.integers(len(ATOMS)))], 'spell': SPELL[int(rng.integers(4))],
             'x_adapt': bool(rng.random() < 0.3),     # x event-wise on a coarser partition
             'second': bool(rng.random() < 0.4)}      # a second event-wise variable on the left
+    # a deterministic LINEAR row that combines two variables:  t - v >= g  with v pinned to v0
+    spec['linrow'] = [float(np.round(rng.uniform(-1, 1), 2)), float(np.round(rng.uniform(-0.5, 1), 2))] \
+        if rng.random() < 0.5 else None
+    # adapt() calls made after all constraints were created and added (1), or even after a first
+    # solve of the model without them (2)
+    spec['late_adapt'] = int(rng.choice([0, 0, 1, 2]))
+    return spec
 
 
 def rho_of(spec):
@@ -63,6 +70,7 @@ def run(spec, ctx, exact=False):
     Sn, n = spec['S'], spec['n']
     labels = spec['labels']
     feats = {'class': 'evconvex', 'S': Sn, 'events': len(spec['partition']), 'atom': spec['atom'],
+             'linrow': bool(spec.get('linrow')), 'late_adapt': int(spec.get('late_adapt', 0)),
              'spell': spec['spell'], 'labels': 'int' if labels is None else type(labels[0]).__name__,
              'x_adapt': spec['x_adapt'], 'second': spec['second']}
     sig = '|'.join('%s=%s' % (k, feats[k]) for k in sorted(feats))
@@ -71,6 +79,7 @@ def run(spec, ctx, exact=False):
         x = m.dvar(n)
         t = m.dvar()
         w = m.dvar() if spec['second'] else None    # (all variables first: see known finding C09)
+        v = m.dvar() if spec.get('linrow') else None
         z = m.rvar(2)
         fset = m.ambiguity()
         for s in range(Sn):
@@ -78,14 +87,20 @@ def run(spec, ctx, exact=False):
             fset[lab].suppset(z >= np.array(spec['lo'][s]), z <= np.array(spec['hi'][s]))
         fset.probset(m.p == np.array(spec['p']))
         part = spec['partition']
-        for bi in spec['order'][:-1]:
-            blk = part[bi]
-            lab = blk if labels is None else [labels[i] for i in blk]
-            t.adapt(lab if len(lab) > 1 else lab[0])
-        if spec['x_adapt'] and len(part) >= 2:
-            blk = part[spec['order'][0]]          # x: this block versus the rest (coarser than t)
-            lab = blk if labels is None else [labels[i] for i in blk]
-            x.adapt(lab if len(lab) > 1 else lab[0])
+
+        def do_adapt():
+            for bi in spec['order'][:-1]:
+                blk = part[bi]
+                lab = blk if labels is None else [labels[i] for i in blk]
+                t.adapt(lab if len(lab) > 1 else lab[0])
+            if spec['x_adapt'] and len(part) >= 2:
+                blk = part[spec['order'][0]]      # x: this block versus the rest (coarser than t)
+                lab = blk if labels is None else [labels[i] for i in blk]
+                x.adapt(lab if len(lab) > 1 else lab[0])
+
+        late = int(spec.get('late_adapt', 0))
+        if not late:
+            do_adapt()
         u = x - np.array(spec['a'])
         a = spec['atom']
         cv = {'norm2': lambda: rso.norm(u), 'norm1': lambda: rso.norm(u, 1),
@@ -105,6 +120,19 @@ def run(spec, ctx, exact=False):
         m.st(con)
         m.st(t >= np.array(spec['c']) @ z + spec['d'])
         m.st(x == np.array(spec['b']))
+        if spec.get('linrow'):
+            m.st(t - v >= spec['linrow'][1])
+            m.st(v == spec['linrow'][0])
+        if late == 2:
+            m.st(t <= 1e3)
+            try:
+                C.solve(m, 'eco' if C.cone_class(m.do_math())[0] in 'QX' else 'def')
+            except Exception as e:
+                if not C.solver_library_error(e):
+                    raise
+            ctx.count('evconvex_solved_before_adapt')
+        if late:
+            do_adapt()
         f = m.do_math()
     except Exception as e:
         ctx.count('evconvex_rsome_raises:%s' % type(e).__name__)
@@ -129,10 +157,11 @@ def run(spec, ctx, exact=False):
     h = [float(np.sum(np.maximum(cvec * np.array(spec['lo'][s]), cvec * np.array(spec['hi'][s])))
                + spec['d']) for s in range(Sn)]
     te = {}
+    lin = [spec['linrow'][0] + spec['linrow'][1]] if spec.get('linrow') else []
     for blk in part:
-        v = max([rho] + [h[s] for s in blk])
+        v_ = max([rho] + lin + [h[s] for s in blk])
         for s in blk:
-            te[s] = v
+            te[s] = v_
     want = float(sum(spec['p'][s] * te[s] for s in range(Sn)))
     tol = 2e-4 * (1 + abs(want))
     tg = t.get()
